@@ -832,7 +832,15 @@ class QvmCpu:
                       expected=a.type,
                       got=b.type)
 
-        result = a.value ** b.value
+        try:
+            result = a.value ** b.value
+        except OverflowError:
+            self.trap(TrapCode.INVALID_CELL_VALUE,
+                      type=a.type,
+                      value=f'{a.value} ^ {b.value}')
+        if isinstance(result, complex):
+            self.trap(TrapCode.INVALID_OPERAND_VALUE,
+                      desc='negative base with a fractional exponent')
         self.push(a.type, result)
 
     def _exec_frame(self, params_size, local_vars_size):
